@@ -427,7 +427,12 @@ def run(ctx):
                 "projects: 1-4 locales, optional 1-3 namespaces, nested subkeys (depth<=3), plain/interpolated/component/"
                 "range/plural/foreign-key/numeric values, repeated texts, absent and null keys in non-default locales, "
                 "strings from a pool biased to quotes, backslashes, C0/C1 controls, U+00A0, U+200B-U+200D, U+2028/9, "
-                "combining marks, astral characters, </script>, <!--; one case per translation unit; non-trivial = "
+                "combining marks, astral characters, </script>, <!--, near duplicates (case, blanks, NFD), surplus keys; then a "
+                "structured grid (1-4 locales x 0-2 namespaces x nesting depth 0-3, with and without `inherits`) whose groups hold "
+                "every kind of value, one text per class, exact and near duplicates, a foreign key copying a text, texts shared "
+                "among the non-default locales and with the default locale, defaulted keys and a wholly defaulted subgroup, "
+                "ASCII-only locales, and variants whose tables have 0, 1 and a few strings; then top-up rounds of structured "
+                "projects for every pair of tag values (pairwise_coverage) not reached yet; one case per translation unit; non-trivial = "
                 "table of >= 2 strings; distinct by hash of (table, shape)",
         "samples": samples,
         "pairwise_coverage": sc.pairwise(tagged, DIMS, infeasible), "coverage_rounds": rounds,
